@@ -20,6 +20,13 @@ claim("C05", "Coq proof (LZSS round trip for all token streams and dialects; cal
       "Proof: lzss_roundtrip, lzss_impl_refines_spec, lzss_end_to_end (closed). Tie: the pure decoder vs the C lzss_decompress on encoder output, damaged and random streams at several buffer sizes; SZDD/KWAJ files built by the generator are opened/extracted through the real API and compared with the generator's header fields and plaintext (KWAJ LZH / MSZIP payloads by correspondence only).",
       NOTE, "4/C05")
 
+claim("C09", "Coq proof (Hoare logic over a ledger monitor, for every host) on the SZDD/LZSS port + L2 model/C callback correspondence with fault injection + fault sweep of the C library",
+      "Proof: for every oracle (all inputs and all combinations of open/read/write/seek/alloc failures), the SZDD scripts (create; decompress; destroy / create; open; extract x2; close; destroy) leave no live allocation and no open handle and never free/close anything not live (2 theorems, closed). The port is tied to szddd.c+lzssd.c by identical callback traces under every single fault. The other four front ends (CAB, CHM, KWAJ, OAB) are covered by the fault sweep of the real library only (ledger read from the instrumented system) - stated as partial.",
+      NOTE, "4/C09")
+claim("C20", "Coq proof (contract monitor, for every host) on the SZDD/LZSS port + L2 model/C callback correspondence + contract monitor in the instrumented system over all front ends",
+      "Proof: for every oracle the SZDD scripts never raise the monitor's flag: open modes match name kinds, read/write/seek/tell/message only on open handles of the right mode, sizes non-negative, whence in range, free only of NULL or live pointers (2 theorems, closed). Tie as for C09. For CAB/CHM/KWAJ/OAB the same predicate (plus buffer capacity via ASan, copy overlap, filename identity) is checked on the C side only, over corpus/generated/damaged inputs with sampled single faults - partial.",
+      NOTE, "4/C20")
+
 def main():
     props = [json.loads(l)["id"] for l in open(os.path.join(V, "properties.jsonl"))]
     # only claim what has a check module
